@@ -1207,8 +1207,12 @@ func runConcurrent(run *hx.Run) {
 	}
 	defer os.RemoveAll(sandbox)
 	fsvc := file.New(filepath.Join(sandbox, "keys"))
-	deadline = time.Now().Add(time.Duration(run.N(25, 120)) * time.Second)
-	for i := 0; i < run.N(10, 60) && time.Now().Before(deadline); i++ {
+	deadline = time.Now().Add(time.Duration(run.N(25, 300)) * time.Second)
+	fileRounds := run.N(10, 60)
+	if raceEnabled {
+		fileRounds = 12
+	}
+	for i := 0; i < fileRounds && time.Now().Before(deadline); i++ {
 		concRound(run, "file", toOutcome(fsvc), fmt.Sprintf("c%d", i), concPws(i))
 	}
 }
@@ -1242,6 +1246,9 @@ func main() {
 		}
 	}
 	nh := run.N(6, 40)
+	if raceEnabled {
+		nh = 8
+	}
 	for h := 0; h < nh; h++ {
 		rr := r.Fork(uint64(h))
 		n := 6 + rr.Intn(run.N(9, 20))
